@@ -11,6 +11,10 @@ fn props() -> Vec<String> {
 
 fn record<T: Hash>(case: &T, nontrivial: bool) {
     let mut g = STATS.lock().unwrap();
+    if g.is_none() {
+        // multi-oracle interpreters prefer the violation of the campaign's first property
+        engine::set_focus(props().first().map(|s| s.as_str()).unwrap_or(""));
+    }
     let st = g.get_or_insert_with(|| (0, HashSet::new()));
     st.0 += 1;
     if nontrivial {
